@@ -196,6 +196,7 @@ pub enum InnerVal {
     Probe(Probe),
     Str(String),
     BoxStr(Box<str>),
+    RcStr(std::rc::Rc<str>),
     Static(&'static str),
     U64(u64),
     I32(i32),
@@ -209,6 +210,7 @@ impl InnerVal {
             InnerVal::Probe(p) => p,
             InnerVal::Str(s) => s,
             InnerVal::BoxStr(s) => s,
+            InnerVal::RcStr(s) => s,
             InnerVal::Static(s) => s,
             InnerVal::U64(v) => v,
             InnerVal::I32(v) => v,
@@ -222,6 +224,7 @@ impl InnerVal {
             InnerVal::Probe(p) => Some(p.text.clone()),
             InnerVal::Str(s) => Some(s.clone()),
             InnerVal::BoxStr(s) => Some(s.to_string()),
+            InnerVal::RcStr(s) => Some(s.to_string()),
             InnerVal::Static(s) => Some(s.to_string()),
             InnerVal::Nested(n) => Some(n.name().to_string()),
             _ => None,
@@ -241,6 +244,7 @@ impl InnerVal {
             "probe" => InnerVal::Probe(Probe::scripted(a, b as u8, c as i8)),
             "string" => InnerVal::Str(String::pick(a)),
             "boxstr" => InnerVal::BoxStr(<Box<str>>::pick(a)),
+            "rcstr" => InnerVal::RcStr(std::rc::Rc::from(pick_str(a))),
             "static" => InnerVal::Static(pick_str(a)),
             "u64" => InnerVal::U64(u64::pick(a)),
             "i32" => InnerVal::I32(i32::pick(a)),
@@ -749,6 +753,7 @@ pub fn exec(case: &Case, leg: &Leg, mut stats: Option<&mut Stats>, keep_log: boo
                         InnerVal::Probe(p) => Some(p.text.clone()),
                         InnerVal::Str(s) => Some(s.clone()),
                         InnerVal::BoxStr(s) => Some(s.to_string()),
+                        InnerVal::RcStr(s) => Some(s.to_string()),
                         _ => None,
                     };
                     if let Some(h) = held {
@@ -766,7 +771,7 @@ pub fn exec(case: &Case, leg: &Leg, mut stats: Option<&mut Stats>, keep_log: boo
                 }
             }
             // E::from_str(s)?.to_string() == s (default variant without to_string)
-            if !v.has_to_string && matches!(case.inner_kind, "probe" | "string" | "boxstr") {
+            if !v.has_to_string && matches!(case.inner_kind, "probe" | "string" | "boxstr" | "rcstr") {
                 let back = match catch(|| sub.display().to_string()) {
                     Ok(b) => b,
                     Err(m) => return (Err(mk_fail("panic", "no panic".into(), m)), info),
